@@ -37,7 +37,7 @@ def cases(draw):
     s = draw(GS.root_schemas(d, 8))
     xs = draw(GI.instances_for(s, 3))
     order = draw(st.lists(st.integers(0, 99), min_size=8, max_size=8))
-    return {"draft": d, "schema": s, "instances": xs, "order": order, "probes": 24}
+    return {"draft": d, "schema": s, "instances": xs, "order": order, "probes": 24, "alias": draw(st.integers(0, 5)) == 0}
 
 
 def model(errors):
@@ -164,6 +164,9 @@ class C17(Prop):
         res = Result()
         res.evals = 0
         d, s = case["draft"], case["schema"]
+        if case.get("alias"):
+            s = impl.alias_equal(s)
+            res.labels.append("aliased")
         cls = impl.CLS[d]
         ET = impl.exceptions.ErrorTree
         if walk.has_ref(d, s):
